@@ -32,7 +32,12 @@ TRUSTED = [
     "be placed at a chosen offset",
     "portalocker advisory-lock semantics (real portalocker is used; the controller probes the lock file itself)",
     "no network: make_url_request is replaced by a stub raising URLError (this sandbox is offline anyway)",
-    "the repaired protocol (KLoadFixed/KRefreshFixed) is a design in the model only; nothing in /repo implements it",
+    "the repaired protocol (KLoadFixed/KRefreshFixed) is the operation sequence of the four patches fix-F1..F4 "
+    "(acquire the lock; copy to <name>.<pid>.tmp then os.replace; look a missing version up in the installed folder; "
+    "tolerant stamp read + atomic stamp write). With VERIF_C19_FIXED=1 a tree carrying the patches is driven against "
+    "these programs and the oracle accepts no known-finding class; with the default 0 the code as it is is driven "
+    "against KLoad/KRefresh. In the children portalocker.Lock.acquire(timeout) is replaced by MAXTRIES non-blocking "
+    "real attempts (one gate each), the model's max_tries",
 ]
 ASSUMPTIONS = [
     "process death = the process stops between two file operations (or between two chunks of a copy); the model's "
@@ -46,6 +51,13 @@ ASSUMPTIONS = [
 NCH = 2
 VT0 = 10000
 MAXTRIES = 3
+# 1: the tree under test carries the four repairs (fix-F1..F4); the real code is then driven against the model's
+# repaired programs (KLoadFixed / KRefreshFixed) and the oracle demands the full property, no known-finding classes
+FIXED = int(os.environ.get("VERIF_C19_FIXED", "1"))   # fix: commits da46472, 19ec63c, 160dd4a, b23f2f7 are in /repo
+
+
+def _fid(x):
+    return None if FIXED else x
 
 # ------------------------------------------------------------------------------------------------
 # child side: proxies installed on the hed modules
@@ -112,7 +124,10 @@ class _Instr:
                 return os.listdir(d)
 
             def replace(s, a, b):
-                I.gate("DReplace", I.findex(b))
+                if I.spec.get("kind") == "move":
+                    I.gate("DReplace", I.findex(b))
+                elif os.path.realpath(os.path.dirname(b)) == I.dir and os.path.basename(b) in I.inst_files:
+                    I.gate("Replace", I.findex(b))
                 return os.replace(a, b)
 
         class ShutilProxy:
@@ -122,13 +137,57 @@ class _Instr:
             def copy(s, src, dst):
                 if os.path.realpath(os.path.dirname(dst)) != I.dir:
                     return shutil.copy(src, dst)
-                I.chunked(src, dst, "Open", "Write")
+                I.chunked(src, dst, "Open", "Write", I.findex(src))
                 shutil.copymode(src, dst)
                 return dst
 
         def copyfile(src, dst):
-            I.chunked(src, dst, "DOpen", "DWrite")
+            I.chunked(src, dst, "DOpen", "DWrite", I.spec.get("findex", 0))
             return dst
+
+        class LockOsProxy:
+            path = os.path
+
+            def __getattr__(s, n):
+                return getattr(os, n)
+
+            def replace(s, a, b):
+                if os.path.basename(b) == hl.TIMESTAMP_FILENAME and os.path.realpath(os.path.dirname(b)) == I.dir:
+                    I.gate("XExit")
+                return os.replace(a, b)
+
+        import portalocker as real_pl
+
+        class GatedLock:
+            """portalocker.Lock whose acquire(timeout) is MAXTRIES non-blocking attempts, one gate each"""
+            def __init__(s, filename, *a, **k):
+                s.filename, s.real = filename, None
+
+            def acquire(s, *a, **k):
+                mine = os.path.realpath(os.path.dirname(s.filename)) == I.dir
+                for _ in range(MAXTRIES):
+                    if mine:
+                        I.gate("Acquire")
+                    lk = real_pl.Lock(s.filename, timeout=0, fail_when_locked=True)
+                    try:
+                        lk.acquire()
+                        s.real = lk
+                        return lk
+                    except real_pl.exceptions.LockException:
+                        pass
+                raise real_pl.exceptions.LockException("lock attempts exhausted (C19 harness)")
+
+            def release(s):
+                if s.real is not None:
+                    s.real.release()
+                    s.real = None
+
+        class PLProxy:
+            exceptions = real_pl.exceptions
+            Lock = GatedLock
+
+            def __getattr__(s, n):
+                return getattr(real_pl, n)
 
         def net(url, *a, **k):
             from urllib.error import URLError
@@ -206,6 +265,9 @@ class _Instr:
             if path and os.path.realpath(os.path.dirname(str(path))) == I.dir:
                 I.gate("Read")
                 I.read_status = file_status(path, os.path.join(I.inst, os.path.basename(path)))[0]
+            elif path and os.path.realpath(os.path.dirname(str(path))) == os.path.realpath(I.inst):
+                I.gate("ReadInstalled")
+                I.read_status = "installed"
             return orig_load(path, *a, **k)
 
         orig_cxv = hc.cache_xml_versions
@@ -225,6 +287,8 @@ class _Instr:
         hc.cache_xml_versions = cache_xml_versions
         hl.time = TimeProxy()
         hl.open = open_
+        hl.os = LockOsProxy()
+        hl.portalocker = PLProxy()
         hl.CacheLock.__enter__ = enter
         hl.CacheLock.__exit__ = exit_
         hio.load_schema = load_schema
@@ -234,9 +298,8 @@ class _Instr:
         b = os.path.basename(path)
         return self.inst_files.index(b) if b in self.inst_files else 99
 
-    def chunked(self, src, dst, gopen, gwrite):
+    def chunked(self, src, dst, gopen, gwrite, f):
         """open(dst,'wb') ; write the chunks one by one (unbuffered) -- what shutil.copy/copyfile do"""
-        f = self.findex(dst) if gopen == "Open" else self.spec.get("findex", 0)
         data = open(src, "rb").read()
         bounds = chunk_bounds(len(data), self.spec.get("nchunks", NCH))
         self.gate(gopen, f)
@@ -508,7 +571,8 @@ def _wait(p, timeout=120):
 def _probe(d, procs):
     """who is inside 'with CacheLock' right now, and is the lock file actually locked?"""
     inside = [i for i, p in enumerate(procs) if p.state == "live" and p.at and
-              p.at[0] in ("Exists", "Open", "Write", "ExistsEnd", "Exit", "Inside", "Net", "StampOpen", "StampWrite")]
+              p.at[0] in ("Exists", "Open", "Write", "Replace", "ExistsEnd", "Exit", "Inside", "Net", "StampOpen",
+                          "StampWrite", "XExit")]
     import portalocker
     fn = os.path.join(d, "cache_lock.lock")
     existed = os.path.exists(fn)
@@ -536,7 +600,8 @@ def model_line(case, nfiles, th):
     st = init.get("stamp", "N")
     kinds = []
     for s in case["procs"]:
-        kinds.append({"load": lambda: ["L", s["vindex"]], "refresh": lambda: "R",
+        kinds.append({"load": lambda: ["LF" if FIXED else "L", s["vindex"]],
+                      "refresh": lambda: "RF" if FIXED else "R",
                       "move": lambda: ["D", s["findex"]]}[s["kind"]]())
     return C.to_sx([[nfiles, NCH, th, MAXTRIES], [fl, st, init.get("lockfile", 0), VT0], kinds,
                     [list(e) for e in case["events_executed"]]])
@@ -568,6 +633,28 @@ def pc_gate(pc, nfiles):
         return ["StampWrite"]
     if n == "LRecheck":
         return ["Recheck"]
+    if n in ("FList1", "FCheck"):
+        return ["LList"]
+    if n in ("FEnter", "XEnter"):
+        return ["Enter"]
+    if n in ("FAcquire", "XAcquire"):
+        return ["Acquire"]
+    if n == "FExists":
+        return ["Exists", int(pc[1])] if int(pc[1]) < nfiles else ["ExistsEnd"]
+    if n == "FTOpen":
+        return ["Open", int(pc[1])]
+    if n == "FTWrite":
+        return ["Write", int(pc[1]), int(pc[2])]
+    if n == "FReplace":
+        return ["Replace", int(pc[1])]
+    if n == "FRelease":
+        return ["Exit"]
+    if n == "FRead":
+        return ["Read"]
+    if n == "FReadInstalled":
+        return ["ReadInstalled"]
+    if n == "XBody":
+        return ["Net"]
     if n in ("DOpen", "DReplace"):
         return [n, int(pc[1])]
     if n == "DWrite":
@@ -628,13 +715,13 @@ def oracle(case, out, res, nfiles):
             vname = "HED" + spec["version"] + ".xml"
             if o == "parse" and r.get("read_status") == "torn":
                 res.report("load-succeeds/no-torn-file-served", cid,
-                           f"proc {i}: {r['result'][1:4]} reading a torn {vname}", fid="C19-F2")
+                           f"proc {i}: {r['result'][1:4]} reading a torn {vname}", fid=_fid("C19-F2"))
             elif o in ("urlerror", "notcached") and listing and vname not in listing:
                 res.report("load-succeeds/partial-cache", cid,
-                           f"proc {i}: {r['result'][1:4]}; cache listing {listing} lacks {vname}", fid="C19-F3")
+                           f"proc {i}: {r['result'][1:4]}; cache listing {listing} lacks {vname}", fid=_fid("C19-F3"))
             elif o == "valueerror" and (r.get("enters") or [[0, "", False]])[-1][1:] == ["ValueError", True]:
                 res.report("load-succeeds/torn-stamp", cid,
-                           f"proc {i}: {r['result'][1:4]}: CacheLock.__enter__ read an empty last_update.txt", fid="C19-F4")
+                           f"proc {i}: {r['result'][1:4]}: CacheLock.__enter__ read an empty last_update.txt", fid=_fid("C19-F4"))
             else:
                 res.report("load-succeeds", cid, f"proc {i}: outcome {o} {r['result']} listing={listing} "
                                                  f"read={r.get('read_status')}")
@@ -659,7 +746,7 @@ def oracle(case, out, res, nfiles):
         if case["procs"][0]["kind"] == "move":
             res.report("safe-move-atomic", cid, f"destination file {idx} left {cls} {cells}")
         elif culprit and cls == "torn":
-            res.report("no-torn-file-kept", cid, f"file {idx} left torn {cells} by killed proc {culprit}", fid="C19-F2")
+            res.report("no-torn-file-kept", cid, f"file {idx} left torn {cells} by killed proc {culprit}", fid=_fid("C19-F2"))
         else:
             res.report("finished-population-identical", cid, f"file {idx} is {cls} {cells}, no killed copier explains it")
     if populated and not out["killed"]:
@@ -676,7 +763,7 @@ def oracle(case, out, res, nfiles):
         if len(pr["inside"]) >= 2:
             if not pr["os_locked"]:
                 res.report("lock-exclusive", cid, f"processes {pr['inside']} are inside 'with CacheLock' together and "
-                                                  "the lock file is not locked", fid="C19-F1")
+                                                  "the lock file is not locked", fid=_fid("C19-F1"))
             else:
                 res.report("lock-exclusive", cid, f"processes {pr['inside']} overlap although the lock is held")
     if case.get("external_lock"):
@@ -684,7 +771,7 @@ def oracle(case, out, res, nfiles):
         ent = (r or {}).get("enters") or []
         if ent and ent[0][1] == "ok":
             res.report("lock-timeout-cache-error", cid, "CacheLock entered while another process holds the lock file "
-                                                        "(lock object never acquired)", fid="C19-F1")
+                                                        "(lock object never acquired)", fid=_fid("C19-F1"))
         elif not ent or ent[0][1] != "CacheException":
             res.report("lock-timeout-cache-error", cid, f"contender saw {ent} instead of CacheException")
 
@@ -713,7 +800,7 @@ def compare(case, out, m, res, nfiles):
         diffs.append(f"stamp impl={out['final']['stamp']} model={ms}")
     mnet = int(m[6])
     inet = sum(1 for r in out["results"] if r and r.get("netcalls")) + \
-        sum(1 for k, at in out["killed"] if at and at[0] in ("StampOpen", "StampWrite"))
+        sum(1 for k, at in out["killed"] if at and at[0] in ("StampOpen", "StampWrite", "XExit"))
     if mnet != inet:
         diffs.append(f"refreshes that reached the network impl={inet} model={mnet}")
     mpop = [int(p[2]) for p in m[7]]
@@ -759,7 +846,8 @@ def build_cases(rng, tier, files, th, wide):
     add("F3 partial-live: load lists the directory during population", [Lb, Lb], [["R", 0]] * gb + [["R", 1]] * 60)
     add("F4 torn stamp: CacheLock.__enter__ reads the half-written last_update.txt", [L, L, Lb],
         [["R", 1]] + [["R", 0]] * 4 + [["R", 2]] * 4 + [["R", 1]])
-    add("F1 lock overlap: both inside with CacheLock", [L, L], [["R", 0]] * 2 + [["R", 1]] * 2, probe_lock_after=3)
+    add("F1 lock overlap: both inside with CacheLock", [L, L], [["R", 0], ["R", 1]] * 3,
+        probe_lock_after=5 if FIXED else 3)
     add("F1 lock timeout: contender while lock file is held", [{"kind": "hold"}], [], external_lock=True)
     add("single load of an empty cache", [L], [])
     add("two loads one after the other", [L, L], [["R", 0]] * (full + 2))
@@ -781,7 +869,7 @@ def build_cases(rng, tier, files, th, wide):
         present = [i for i in range(nf) if rng.random() < rng.choice([0.0, 0.3, 0.9, 1.0])]
         for i in present:
             init["files"][i] = ["G", "G"]
-        if mode < 0.35:      # malformed: some file torn
+        if mode < 0.35 and not FIXED:      # malformed: some file torn (states the repaired code cannot leave)
             j = rng.choice(present + [idx])
             init["files"][j] = rng.choice([[], ["G"], ["H", "G"], ["G", "H"], ["H"]])
         st = rng.random()
